@@ -9,4 +9,4 @@ Extraction "model_lh.ml"
   load_test lh_table_new lh_table_resize lh_table_insert_w_hash lh_table_lookup_entry
   lh_table_delete_entry lh_table_delete set_val sget
   obj_add_ex obj_del obj_get_ex obj_length obj_iter lh_walk lh_walk_back obj_foreach_del
-  set_string_hash.
+  set_string_hash obj_add_self.
